@@ -92,6 +92,13 @@ type cffInfo struct {
 	// inner structures walked by the "walked" family (absolute positions, 0 if absent / predefined)
 	FDSelect, Charset, Encoding int
 	NFD                         int // number of font dicts of the FDArray
+	Dicts                       []cffDict
+}
+
+// cffDict is the extent of one DICT of the table (absolute positions).
+type cffDict struct {
+	Kind       string // top | private | fontdict
+	Start, End int
 }
 
 func readIndex(d []byte, pos int, count32 bool, limit int) *cffIndex {
@@ -206,6 +213,7 @@ func parseCFF(d []byte, t tableRef) (info *cffInfo) {
 		if len(priv) != 2 || priv[0] <= 0 || priv[1] <= 0 || T+priv[1]+priv[0] > limit {
 			return
 		}
+		info.Dicts = append(info.Dicts, cffDict{"private", T + priv[1], T + priv[1] + priv[0]})
 		ops := dictOps(d[T+priv[1] : T+priv[1]+priv[0]])
 		if s := ops[19]; len(s) == 1 && s[0] > 0 {
 			if ix := readIndex(d, T+priv[1]+s[0], info.V2, limit); ix != nil && ix.Count > 0 {
@@ -220,6 +228,7 @@ func parseCFF(d []byte, t tableRef) (info *cffInfo) {
 			return nil
 		}
 		top = dictOps(d[T+hdr : T+hdr+topLen])
+		info.Dicts = append(info.Dicts, cffDict{"top", T + hdr, T + hdr + topLen})
 		info.GSubrs = readIndex(d, T+hdr+topLen, true, limit)
 	} else {
 		if d[T] != 1 {
@@ -234,6 +243,7 @@ func parseCFF(d []byte, t tableRef) (info *cffInfo) {
 			return nil
 		}
 		top = dictOps(tops.item(d, 0))
+		info.Dicts = append(info.Dicts, cffDict{"top", tops.DataBase + tops.Offs[0], tops.DataBase + tops.Offs[1]})
 		str := readIndex(d, tops.End, false, limit)
 		if str == nil {
 			return nil
@@ -265,6 +275,9 @@ func parseCFF(d []byte, t tableRef) (info *cffInfo) {
 		if fds := readIndex(d, T+fda[0], info.V2, limit); fds != nil {
 			info.NFD = fds.Count
 			for i := 0; i < fds.Count && i < 64; i++ {
+				if i < 4 || i == fds.Count-1 {
+					info.Dicts = append(info.Dicts, cffDict{"fontdict", fds.DataBase + fds.Offs[i], fds.DataBase + fds.Offs[i+1]})
+				}
 				private(dictOps(fds.item(d, i))[18], 0)
 			}
 		}
@@ -642,6 +655,217 @@ func cffMutants(d []byte, info *cffInfo) []mutant {
 	return out
 }
 
+// ---- DICT-level edits (Top DICT, Private DICTs, Font DICTs; CFF and CFF2) ----
+
+type dictOperand struct {
+	pos, n int // absolute position and encoded length
+	val    int
+	isReal bool
+}
+
+type dictEntry struct {
+	opPos, opLen int // absolute position of the operator (2 bytes when escaped)
+	op           int // escaped operators as 1200+b
+	operands     []dictOperand
+}
+
+// dictEntries scans the DICT d[start:end] keeping the position of every operand and operator.
+func dictEntries(d []byte, start, end int) []dictEntry {
+	var out []dictEntry
+	var st []dictOperand
+	for i := start; i < end; {
+		x := d[i]
+		switch {
+		case x == 28 && i+3 <= end:
+			st = append(st, dictOperand{i, 3, int(int16(binary.BigEndian.Uint16(d[i+1:]))), false})
+			i += 3
+		case x == 29 && i+5 <= end:
+			st = append(st, dictOperand{i, 5, int(int32(binary.BigEndian.Uint32(d[i+1:]))), false})
+			i += 5
+		case x == 30:
+			j := i + 1
+			for j < end && d[j]&0xf != 0xf && d[j]>>4 != 0xf {
+				j++
+			}
+			j++
+			st = append(st, dictOperand{i, j - i, 0, true})
+			i = j
+		case x >= 32 && x <= 246:
+			st = append(st, dictOperand{i, 1, int(x) - 139, false})
+			i++
+		case x >= 247 && x <= 250 && i+2 <= end:
+			st = append(st, dictOperand{i, 2, (int(x)-247)*256 + int(d[i+1]) + 108, false})
+			i += 2
+		case x >= 251 && x <= 254 && i+2 <= end:
+			st = append(st, dictOperand{i, 2, -(int(x)-251)*256 - int(d[i+1]) - 108, false})
+			i += 2
+		case x <= 27:
+			e := dictEntry{opPos: i, opLen: 1, op: int(x), operands: st}
+			i++
+			if x == 12 && i < end {
+				e.op, e.opLen = 1200+int(d[i]), 2
+				i++
+			}
+			out = append(out, e)
+			st = nil
+		default:
+			return out
+		}
+	}
+	return out
+}
+
+// encodeDictNum encodes v in exactly n bytes: the shortest encoding, preceded by as many `0`
+// operands as needed (a well-formed DICT with extra leading operands; the readers use the last
+// ones). ok is false when v does not fit.
+func encodeDictNum(v, n int) ([]byte, bool) {
+	var enc []byte
+	switch {
+	case v >= -107 && v <= 107, v >= 108 && v <= 1131, v >= -1131 && v <= -108:
+		enc = encodeNum(v)
+	case v >= -32768 && v <= 32767:
+		enc = []byte{28, byte(uint16(int16(v)) >> 8), byte(v)}
+	default:
+		enc = []byte{29, byte(uint32(int32(v)) >> 24), byte(uint32(int32(v)) >> 16), byte(uint32(int32(v)) >> 8), byte(v)}
+	}
+	if len(enc) > n {
+		return nil, false
+	}
+	out := make([]byte, 0, n)
+	for len(out)+len(enc) < n {
+		out = append(out, 139) // operand 0
+	}
+	return append(out, enc...), true
+}
+
+var dictOpNames = map[int]string{0: "version", 1: "Notice", 2: "FullName", 3: "FamilyName", 4: "Weight", 5: "FontBBox", 6: "BlueValues", 7: "OtherBlues",
+	10: "StdHW", 11: "StdVW", 13: "UniqueID", 14: "XUID", 15: "charset", 16: "Encoding", 17: "CharStrings", 18: "Private", 19: "Subrs", 20: "defaultWidthX",
+	21: "nominalWidthX", 22: "vsindex", 23: "blend", 24: "vstore", 1206: "CharstringType", 1207: "FontMatrix", 1230: "ROS", 1234: "CIDCount", 1236: "FDArray",
+	1237: "FDSelect", 1238: "FontName"}
+
+func dictOpName(op int) string {
+	if n, ok := dictOpNames[op]; ok {
+		return fmt.Sprintf("%d(%s)", op, n)
+	}
+	return fmt.Sprint(op)
+}
+
+// operators that take an offset (last operand) / a size or count
+var dictOffsetOps = map[int]bool{15: true, 16: true, 17: true, 18: true, 19: true, 24: true, 1236: true, 1237: true}
+
+// dictEdit is one in-place edit of a DICT with its description.
+type dictEdit struct {
+	e    Edit
+	note string
+}
+
+// dictEdits lists the single DICT-level edits of one DICT.
+func (info *cffInfo) dictEdits(d []byte, dc cffDict) []dictEdit {
+	var out []dictEdit
+	T := info.Start
+	// starts of the other structures of the table, relative to the table (targets for offsets)
+	targets := []int{0, 1, 2, info.GSubrs.Pos - T, info.CharStrings.Pos - T, info.CharStrings.DataBase - T, info.Len - 1, info.Len, info.Len + 1}
+	if info.FDSelect != 0 {
+		targets = append(targets, info.FDSelect-T)
+	}
+	if info.Charset != 0 {
+		targets = append(targets, info.Charset-T)
+	}
+	for _, l := range info.LSubrs {
+		targets = append(targets, l.Pos-T)
+		break
+	}
+	for _, o := range info.Dicts {
+		if o.Start != dc.Start {
+			targets = append(targets, o.Start-T)
+		}
+	}
+	for _, e := range dictEntries(d, dc.Start, dc.End) {
+		n := len(e.operands)
+		// (a) rewrite the operator into another one taking the same operands; 13 (UniqueID), 14 (XUID)
+		// and 12 23 (BaseFontBlend) are ignored by the readers: that deletes the entry
+		var cands []int
+		if e.opLen == 1 {
+			switch n {
+			case 1:
+				cands = []int{13, 15, 16, 17, 19, 20, 24, 4, 10}
+			case 2:
+				cands = []int{14, 18, 5, 6}
+			default:
+				cands = []int{14, 5, 6, 18, 7}
+			}
+		} else {
+			switch n {
+			case 1:
+				cands = []int{1200, 1206, 1234, 1236, 1237, 1238, 1205, 1217}
+			case 3:
+				cands = []int{1223, 1230, 1207}
+			default:
+				cands = []int{1223, 1207, 1230, 1212}
+			}
+		}
+		for _, c := range cands {
+			if c == e.op {
+				continue
+			}
+			ed := Edit{Op: "set8", Off: e.opPos, Val: uint32(c)}
+			if e.opLen == 2 {
+				ed = Edit{Op: "set8", Off: e.opPos + 1, Val: uint32(c - 1200)}
+			}
+			out = append(out, dictEdit{ed, fmt.Sprintf("%s op %s->%s", dc.Kind, dictOpName(e.op), dictOpName(c))})
+		}
+		// (b) operands
+		for k, o := range e.operands {
+			if o.isReal {
+				continue
+			}
+			var vals []int
+			switch {
+			case dictOffsetOps[e.op] && k == n-1: // an offset
+				vals = append(vals, targets...)
+				vals = append(vals, o.val+1, o.val-1, -1, 32767, 1<<31-1)
+			case e.op == 18 || e.op == 1206 || e.op == 1234 || e.op == 1230: // size / type / count
+				vals = []int{0, 1, 2, o.val + 1, o.val - 1, -1, info.Len, 32767, 65535, 1<<31 - 1}
+			default:
+				vals = []int{0, -1, 32767, o.val + 1}
+			}
+			seen := map[int]bool{o.val: true}
+			for _, v := range vals {
+				if seen[v] {
+					continue
+				}
+				seen[v] = true
+				if enc, ok := encodeDictNum(v, o.n); ok {
+					out = append(out, dictEdit{Edit{Op: "splice", Off: o.pos, Len: o.n, Hex: hex.EncodeToString(enc)},
+						fmt.Sprintf("%s op %s operand[%d] %d->%d", dc.Kind, dictOpName(e.op), k, o.val, v)})
+				}
+			}
+		}
+	}
+	return out
+}
+
+// cffDictMutants: every single DICT-level edit, and pairs of edits inside one DICT / across the
+// DICTs of the table (sampled).
+func cffDictMutants(d []byte, info *cffInfo, rnd interface{ Intn(int) int }, nPairs int) []mutant {
+	var out []mutant
+	var all []dictEdit
+	for _, dc := range info.Dicts {
+		all = append(all, info.dictEdits(d, dc)...)
+	}
+	for _, e := range all {
+		out = append(out, mutant{Cat: catCFF, Edits: []Edit{e.e}, Note: "cff:dict " + e.note})
+	}
+	for k := 0; k < nPairs && len(all) >= 2; k++ {
+		a, b := all[rnd.Intn(len(all))], all[rnd.Intn(len(all))]
+		if a.e.Off == b.e.Off {
+			continue
+		}
+		out = append(out, mutant{Cat: catCFF, Edits: []Edit{a.e, b.e}, Note: "cff:dict-pair " + a.note + " + " + b.note})
+	}
+	return out
+}
+
 // ---- the test ----
 
 type cffFont struct {
@@ -732,7 +956,16 @@ func TestPropCFFStructured(t *testing.T) {
 			ev.Label("cff_font:no_subrs")
 		}
 		frnd := ev.NewRand(uint64(ev.Seed())<<20 ^ uint64(i)*0x9E3779B97F4A7C15 ^ uint64(len(data)))
-		for _, m := range sample(all, perFont, frnd) {
+		// DICT-level edits: a few on every font, (nearly) all of them on every eighth font and on
+		// the rare strata (CFF2, CID-keyed, global subroutines)
+		dictBudget := envInt("C09_CFF_DICT_PER_FONT", 15)
+		if i%8 == 0 || f.info.V2 || f.info.NFD > 0 || ev.Thorough() {
+			dictBudget = envInt("C09_CFF_DICT_FULL", 260)
+		}
+		dictAll := cffDictMutants(data, f.info, frnd, 80)
+		ev.LabelN("cff_dict_enumerated_mutants", int64(len(dictAll)))
+		cases := append(sample(all, perFont, frnd), sample(dictAll, dictBudget, frnd)...)
+		for _, m := range cases {
 			if co.stopped {
 				break
 			}
